@@ -32,8 +32,19 @@ NAMES = ['xx', 'yy', 'tot', 'aa', 'bb', 'fn0', 'fn1', 'mathMax', 'stringNew']
 SHADOWABLE = ['stringNew', 'mathMax', 'mathAbs', 'arrayNew', 'objectNew', 'stringLength', 'mathMin', 'systemType', 'jsonStringify']
 
 
+def _plain(v, depth=0):
+    # (a function value prints as "a function": the implementation's and the reference's function objects have different reprs)
+    if callable(v) or isinstance(v, (RefFunction, interp.LibraryRef, interp.RefPartial)):
+        return '<function>'
+    if isinstance(v, list) and depth < 20:
+        return [_plain(x, depth + 1) for x in v]
+    if isinstance(v, dict) and depth < 20:
+        return {k: _plain(x, depth + 1) for k, x in v.items()}
+    return v
+
+
 def shadow_upper(args, options):
-    return 'SHADOW(%s)' % ','.join(str(a) for a in args)
+    return 'SHADOW(%s)' % ','.join(str(_plain(a)) for a in args)
 
 
 def shadow_len(args, options):
